@@ -194,8 +194,9 @@ def split_extra(prop, tier, seed):
     """every registry (subset of sp1, sp2, __AUTH__, __UNAUTH__; native flags on a rotating subset) x a fixed client battery"""
     import itertools
     rnd = random.Random(seed)
-    names = ["sp1", "sp2", "__AUTH__", "__UNAUTH__"]
-    clients = [("node", []), ("node", ["sp1"]), ("node", ["zz", "sp2"]), ("node", ["__UNAUTH__"]), ("node", ["__AUTH__", "sp1"]), ("node", ["zz"]),
+    LONG = "sp3-a-protocol-name-longer-than-thirty-two-bytes"
+    names = ["sp1", LONG, "__AUTH__", "__UNAUTH__"]
+    clients = [("node", []), ("node", ["sp1"]), ("node", ["zz", LONG]), ("node", [LONG]), ("nodeAfter", [LONG]), ("node", ["__UNAUTH__"]), ("node", ["__AUTH__", "sp1"]), ("node", ["zz"]),
                ("base", []), ("base", ["sp1"]), ("base", ["__AUTH__"]), ("base", ["sp2", "__UNAUTH__"]), ("base", ["zz"]), ("fetch", ["sp1"]),
                ("rogue", []), ("node", ["sp1"]), ("rogue", ["__AUTH__"]), ("rogue", ["sp1"]), ("node", []),
                ("nodeAfter", ["sp1"]), ("nodeAfter", ["zz", "sp2"]), ("nodeBefore", ["sp2"]), ("nodeAfter", [])]
@@ -209,14 +210,16 @@ def split_extra(prop, tier, seed):
     for i, reg in enumerate(regs):
         native = [n for j, n in enumerate(reg) if (i + j) % 3 == 0]
         # every other registry runs over a base listener that reports its closure with an error of its own
-        ops = [dict(op="Config", reg=reg, native=native, closeErr=("custom" if i % 2 else "std"))] + [dict(op="Client", kind=k, extras=e) for (k, e) in clients] + [dict(op="CloseBase")]
+        # every third registry requests some of its sub-listeners only after Start is running
+        late = [n for j, n in enumerate(reg) if i % 3 == 1 and j % 2 == 0]
+        ops = [dict(op="Config", reg=reg, native=native, closeErr=("custom" if i % 2 else "std"), late=late)] + [dict(op="Client", kind=k, extras=e) for (k, e) in clients] + [dict(op="CloseBase")]
         out.append(dict(id="reg%d" % i, ops=ops))
     return out
 
 
 def split_family():
     fam = dict(
-        driver="split", trace_module="SplitTrace.tla", trace_consts={"Specific": '{"sp1","sp2"}'},
+        driver="split", trace_module="SplitTrace.tla", trace_consts={"Specific": '{"sp1","sp2","sp3-a-protocol-name-longer-than-thirty-two-bytes"}'},
         level="model_checking", fixed="fixed/split.ndjson", materialise=split_materialise,
         nontrivial=lambda prop, l: l["op"]["op"] == "Client",
         mc=dict(quick=[("MC_Split.tla", "MC_Split.cfg")], thorough=[("MC_Split.tla", "MC_Split.cfg")]),
